@@ -33,11 +33,14 @@ type engine struct {
 	shedder              load.Shedder
 	priorityShedder      load.Shedder
 	tlsConfig            *tls.Config
+	// maxConns 是整个服务器共用的并发控制中间件：Config.MaxConns 限制的是服务器，而不是单个路由。
+	maxConns func(http.Handler) http.Handler
 }
 
 func newEngine(c Config) *engine {
 	ng := &engine{
-		config: c,
+		config:   c,
+		maxConns: handler.MaxConns(c.MaxConns),
 	}
 	if c.CpuThreshold > 0 {
 		ng.shedder = load.NewAdaptiveShedder(load.WithCpuThreshold(c.CpuThreshold))
@@ -92,7 +95,7 @@ func (ng *engine) bindRoute(fr featuredRoutes, router httpx.Router, metrics *sta
 			handler.TracingHandler(ng.config.Name, route.Path),
 			ng.getLogHandler(),
 			handler.PrometheusHandler(route.Path),
-			handler.MaxConns(ng.config.MaxConns),
+			ng.maxConns,
 			handler.BreakerHandler(route.Method, route.Path, metrics),
 			handler.SheddingHandler(ng.getShedder(fr.priority), metrics),
 			handler.TimeoutHandler(ng.checkedTimeout(fr.timeout)),
